@@ -1210,3 +1210,22 @@ Proof.
   { destruct (H e (or_introl eq_refl)) as [->| ->]; cbn [sdstep]; rewrite S; reflexivity. }
   rewrite E. apply IH; try assumption. intros e' I. apply H. right. exact I.
 Qed.
+
+(* ------------------------------------------------------------------ *)
+(** * Counting does not look at the payload length *)
+
+Lemma qualifying_ignores_length l1 l2 t f sid c1 c2 :
+  t <> FData ->
+  qualifying (mkfh l1 t f sid) c1 = qualifying (mkfh l2 t f sid) c2.
+Proof. intros H. unfold qualifying. cbn [ftyp fflags stream_id]. destruct t; try reflexivity. contradiction. Qed.
+
+Lemma counted_all k fs :
+  Forall (fun p => qualifying (fst p) (snd p) = Some k) fs ->
+  counted fs = repeat k (length fs).
+Proof.
+  induction 1 as [|[h cl] r Hq _ IH]; [reflexivity|]. cbn [counted length repeat].
+  cbn [fst snd] in Hq. rewrite Hq. f_equal. exact IH.
+Qed.
+
+Lemma forall_repeat (k : N) n : Forall (fun x => x = k) (repeat k n).
+Proof. induction n; cbn [repeat]; constructor; auto. Qed.
